@@ -365,6 +365,17 @@ def creadinto(self, read_buffer, unpack_buffer=None):
         raise ValueError("unpack_buffer should be provided when unpacking")
     return nbytes
 ''',
+    "apply_along_axes": '''
+def apply_along_axes(func, data, axis=None):
+    if axis is None:
+        return func(data.ravel())
+    if isinstance(axis, int):
+        axis = (axis,)
+    axis = tuple(ax % data.ndim for ax in axis)
+    moved_data = np.moveaxis(data, axis, range(len(axis)))
+    reshaped_data = moved_data.reshape(-1, *moved_data.shape[len(axis):])
+    return np.apply_along_axis(func, axis=0, arr=reshaped_data)
+''',
     "eos": '''
 def eos(self):
     eof = self.file_obj.tell() == os.fstat(self.file_obj.fileno()).st_size
